@@ -116,6 +116,12 @@ def applyEq (k : Kind) (lit : Lit) (second : RV) : Option (Option Bool) :=
     | _ => none
   else none
 
+/-- `derefValue`: follow every pointer level; the zero Value for a nil pointer. -/
+def derefValue : GoVal → RV
+  | .ptr _ (some v) => derefValue v
+  | .ptr _ none => none
+  | v => some v
+
 /-- `doMatchEqual` -/
 def doMatchEqual (raw : Option GoString) (value : RV) : Out :=
   let k := value.kind
@@ -135,21 +141,20 @@ def doMatchEqual (raw : Option GoString) (value : RV) : Out :=
 def inIfaceLoop (raw : GoString) : List GoVal → Out
   | [] => .val false
   | x :: xs =>
-    -- item := value.Index(i).Elem()
+    -- item := derefValue(value.Index(i).Elem())
     let item : RV := match x with
-      | .iface y => y
-      | .ptr _ y => y         -- only if the element type were *interface{}: excluded
+      | .iface (some y) => derefValue y
       | _ => none
     match item with
-    | none => .panic          -- item.Type() on the zero Value
+    | none => inIfaceLoop raw xs          -- nil element or nil pointer: `continue`
     | some it =>
-      let k := it.typeOf.deref.kind
+      let k := it.kind
       match coerceLit raw k with
       | .error .syntax => inIfaceLoop raw xs
       | .error .range => .err false
       | .ok lit =>
         if !hasEqFn k then .err false else
-        match applyEq k lit (indirect (some it)) with
+        match applyEq k lit (some it) with
         | none => .panic
         | some none => .unmodelled
         | some (some true) => .val true
@@ -159,11 +164,14 @@ def inIfaceLoop (raw : GoString) : List GoVal → Out
 def inConcreteLoop (k : Kind) (lit : Lit) : List GoVal → Out
   | [] => .val false
   | x :: xs =>
-    match applyEq k lit (indirect (some x)) with
-    | none => .panic
-    | some none => .unmodelled
-    | some (some true) => .val true
-    | some (some false) => inConcreteLoop k lit xs
+    match derefValue x with
+    | none => inConcreteLoop k lit xs     -- nil pointer element: `continue`
+    | some item =>
+      match applyEq k lit (some item) with
+      | none => .panic
+      | some none => .unmodelled
+      | some (some true) => .val true
+      | some (some false) => inConcreteLoop k lit xs
 
 /-- string assignable to the key type: `MapIndex(reflect.ValueOf(raw))` does not panic -/
 def stringAssignable (kt : GoType) : Bool :=
@@ -184,8 +192,11 @@ def doMatchIn (raw : Option GoString) (value : RV) : Out :=
     | .ok _ =>
       match value with
       | some (.map _ kt _ _ es) =>
-        if !stringAssignable kt then .panic
-        else .val (es.any fun e => fkeyEq e.1 (.str "" raw))
+        if stringAssignable kt then .val (es.any fun e => fkeyEq e.1 (.str "" raw))
+        else
+          match kt with
+          | .basic .string name => .val (es.any fun e => fkeyEq e.1 (.str name raw))  -- Convert
+          | _ => .err false
       | some (.slice _ elem _ xs) => inElems raw elem xs
       | some (.array elem xs) => inElems raw elem xs
       | some (.str _ s) => .val (GoString.containsSub s raw)
@@ -193,7 +204,8 @@ def doMatchIn (raw : Option GoString) (value : RV) : Out :=
 where
   inElems (raw : GoString) (elem : GoType) (xs : List GoVal) : Out :=
     let k := elem.deref.kind
-    if k == .interface then inIfaceLoop raw xs
+    if elem == .iface then inIfaceLoop raw xs
+    else if k == .interface then .unmodelled     -- pointer-to-interface elements: outside the universe
     else
       match coerceLit raw k with
       | .error _ => .err false
@@ -212,9 +224,12 @@ def rvLen : RV → Option Nat
 
 /-- `doMatchIsEmpty` -/
 def doMatchIsEmpty (value : RV) : Out :=
-  match rvLen value with
-  | some n => .val (n == 0)
-  | none => .panic
+  match value.kind with
+  | .array | .chan | .map | .slice | .string =>
+    match rvLen value with
+    | some n => .val (n == 0)
+    | none => .panic
+  | _ => .err false
 
 /-- bytes of a value whose type is convertible to `[]byte` (string kinds; slices whose element
     type is exactly `uint8`) -/
@@ -229,7 +244,7 @@ def asBytes : GoVal → Option GoString
 /-- `doMatchMatches` -/
 def doMatchMatches (re : RegexOracle) (raw : Option GoString) (value : RV) : Out :=
   match value with
-  | none => .panic                       -- value.Type() on the zero Value
+  | none => .err false                   -- `if !value.IsValid()`
   | some v =>
     match asBytes v with
     | none => .err false                 -- not convertible to []byte
@@ -337,16 +352,16 @@ def evaluateMatch (re : RegexOracle) (o : Opts) (datum : Any) (sel : Selector) (
 /-- bindings pushed for element `i` of a list (`else` branch of the loop body) -/
 def listBindings (sel : Selector) (b : Binding) (i : Nat) : List LocalVar :=
   let pathValue := sel.path ++ [GoString.natToDec i]
-  (if !b.index.isEmpty then [{ name := b.index, path := [], value := some (.int .int "" i) }] else [])
-  ++ (if !b.default.isEmpty then [{ name := b.default, path := pathValue, value := none }] else [])
+  (if !b.default.isEmpty then [{ name := b.default, path := pathValue, value := none }] else [])
   ++ (if !b.value.isEmpty then [{ name := b.value, path := pathValue, value := none }] else [])
+  ++ (if !b.index.isEmpty then [{ name := b.index, path := [], value := some (.int .int "" i) }] else [])
 
 /-- bindings pushed for a map entry with key `key` -/
 def mapBindings (sel : Selector) (b : Binding) (key : GoString) : List LocalVar :=
   let kv : Any := some (.str "" key)
-  (if !b.default.isEmpty then [{ name := b.default, path := [], value := kv }] else [])
+  (if !b.value.isEmpty then [{ name := b.value, path := sel.path ++ [key], value := none }] else [])
+  ++ (if !b.default.isEmpty then [{ name := b.default, path := [], value := kv }] else [])
   ++ (if !b.index.isEmpty then [{ name := b.index, path := [], value := kv }] else [])
-  ++ (if !b.value.isEmpty then [{ name := b.value, path := sel.path ++ [key], value := none }] else [])
 
 /-- the loop of `evaluateCollectionExpression` over the per-element binding lists -/
 def collLoop (f : Opts → Out) (o : Opts) (op : CollOp) (b : Binding) :
@@ -365,12 +380,22 @@ def strKey : GoVal → GoString
   | .str _ s => s
   | _ => []
 
+/-- Go's `<=` on strings: bytewise lexicographic -/
+def strLe : GoString → GoString → Bool
+  | [], _ => true
+  | _ :: _, [] => false
+  | a :: as, b :: bs => a < b || (a == b && strLe as bs)
+
+/-- `sort.Slice(keys, func(i, j) bool { return keys[i].String() < keys[j].String() })`: the keys
+    of a map are pairwise distinct, so the sorted order is unique. -/
+def sortKeys (ks : List GoString) : List GoString := ks.mergeSort strLe
+
 /-- `evaluate` (with `evaluateCollectionExpression` inlined for the structural recursion) -/
 def evaluate (re : RegexOracle) : Expr → Opts → Any → Out
   | .not e, o, d =>
     match evaluate re e o d with
     | .val b => .val (!b)
-    | .err b => .err (!b)             -- `return !result, err`
+    | .err _ => .err false            -- `if err != nil { return false, err }`
     | other => other
   | .and l r, o, d =>
     match evaluate re l o d with
@@ -391,7 +416,7 @@ def evaluate (re : RegexOracle) : Expr → Opts → Any → Out
       | some (.map _ kt _ _ es) =>
         if kt != GoType.stringT then .err false
         else collLoop (fun o' => evaluate re inner o' d) o op b
-          (es.map fun e => mapBindings sel b (strKey e.1))
+          ((sortKeys (es.map fun e => strKey e.1)).map fun k => mapBindings sel b k)
       | some (.slice _ _ _ xs) =>
         collLoop (fun o' => evaluate re inner o' d) o op b
           ((List.range xs.length).map fun i => listBindings sel b i)
